@@ -932,7 +932,17 @@ def heap_cell(e, env, P):
             return None
         if isinstance(b, PRef):
             return b.cell()
+        if isinstance(b, int) and not isinstance(b, bool) and env.get("#bytemem") and b >= HEAP_BASE:
+            return ("m", b)
         return None
+    if is_e(e, "idx") and env.get("#bytemem"):
+        try:
+            b = evalx(e[1], env, P)
+            i = evalx(e[2], env, P)
+        except EvalError:
+            return None
+        if isinstance(b, int) and isinstance(i, int) and b >= HEAP_BASE:
+            return ("m", b + i)
     return None
 
 
@@ -1078,7 +1088,7 @@ def evalx(e, env, P=None):
     if is_e(e, "stmtexpr"):
         return evalx(e[1], env, P)
     k = key(e)
-    if k in env:
+    if k in env and env[k] is not None:
         return env[k]
     t = e[0]
     if t == "int":
@@ -1086,11 +1096,17 @@ def evalx(e, env, P=None):
     if t == "str":
         return PStr(e[1])
     if t == "var" and e[1] in env:
+        if env[e[1]] is None:
+            raise EvalError("variable %s has no known value" % e[1])
         return env[e[1]]
-    if t == "fld" or t == "deref":
+    if t == "fld" or t == "deref" or (t == "idx" and env.get("#bytemem")):
         hc = heap_cell(e, env, P)
         if hc is not None:
             if hc not in env:
+                if isinstance(hc, tuple) and hc[0] == "m":
+                    raise EvalError("read of memory byte %d that holds no data (outside every buffer's data, or never written)" % hc[1])
+                if isinstance(hc, tuple) and len(hc) == 3 and env.get(("@", hc[1], "#zero")):
+                    return 0        # object declared zero-initialised by the rule that built the heap image
                 raise EvalError("uninitialised heap cell %s" % (hc,))
             if env[hc] is FREED or env[hc] == FREED:
                 raise EvalError("use after free: %s" % (hc,))
@@ -1376,7 +1392,7 @@ def tevalx(e, env, P, fn):
     if is_e(e, "stmtexpr"):
         return tevalx(e[1], env, P, fn)
     k_ = key(e)
-    if k_ in env:
+    if k_ in env and env[k_] is not None:
         return env[k_]
     t = e[0]
     if t in ("deref", "idx"):
